@@ -30,7 +30,7 @@ RULE = ("cases = (route, word) as in C01 without lone surrogates; each supplied 
 ASSUMPTIONS = ["the reference meaning function reads '%XX' (two hex digits, either case) as an escape and any other '%' as a literal",
                "empty user is the same as absent user"]
 
-FULL = A.ASCII + A.UNI + A.ESC
+FULL = A.ASCII + A.LATIN1_HIGH + A.UNI + A.ESC
 CLSX = A.CLS + A.UNI + A.ESC
 SPACES = {
     "F1": lambda: list(A.words(FULL, 1)),
